@@ -17,6 +17,7 @@ ID = "C16"
 LEVEL = "exploration"
 DESIGN_REF = "5/C16, 4.2"
 TECHNIQUE = "property-based testing over generated schedules: exact concurrency count at quiescent points"
+WALL = {"quick": 120, "thorough": 1500}
 RULE = (
     "cases = (workflow program without nested workflows having >=2 jobs, limit k in 1..number of "
     "jobs, completion-order choice list) under the schedule-owning worker. Non-trivial = the "
@@ -95,4 +96,4 @@ def run(sh):
         if obs.get("timeouts"):
             sh.count("settle_timeouts", obs["timeouts"])
 
-    sh.given(cases(), body, sh.budget(96, 2000), tag="limit")
+    sh.given(cases(), body, sh.budget(64, 2000), tag="limit")
